@@ -58,6 +58,45 @@ fn main() {
             }
             println!("done runs={} violations={}", to - from, nviol);
         }
+        "alloctrace" => {
+            // debug: adsim alloctrace <C0x> --idx N [--pre K] [--bt EVENT]
+            let check = hist::parse_check(&args[2]).expect("property");
+            let idx: u64 = arg_val(&args, "--idx").map(|s| s.parse().unwrap()).unwrap_or(0);
+            let pre: u64 = arg_val(&args, "--pre").map(|s| s.parse().unwrap()).unwrap_or(0);
+            driver::warm_up();
+            for i in 0..pre {
+                let _ = hist::run_seed(check, 1, i);
+            }
+            if let Some(l) = arg_val(&args, "--prelist") {
+                for x in l.split(',') {
+                    let _ = hist::run_seed(check, 1, x.parse().unwrap());
+                }
+            }
+            if let Some(b) = arg_val(&args, "--bt") {
+                seams::TRACE_BT_AT.store(b.parse().unwrap(), std::sync::atomic::Ordering::SeqCst);
+            }
+            seams::TRACE_ON.store(true, std::sync::atomic::Ordering::SeqCst);
+            let leak = args.iter().any(|a| a == "--leaks");
+            if leak {
+                seams::LEAK_ON.store(true, std::sync::atomic::Ordering::SeqCst);
+            }
+            let (_t, o) = hist::run_seed(check, 1, idx);
+            if leak {
+                seams::leak_report();
+            }
+            seams::TRACE_ON.store(false, std::sync::atomic::Ordering::SeqCst);
+            let ev = seams::trace_take();
+            println!("digest {:x} alloc {:x} events {}", o.outcome.digest, o.outcome.stats.alloc_digest, ev.len());
+            for (i, e) in ev.iter().enumerate() {
+                println!("{} {}", i, e);
+            }
+        }
+        "gen" => {
+            let check = hist::parse_check(&args[2]).expect("property");
+            let idx: u64 = arg_val(&args, "--idx").map(|s| s.parse().unwrap()).unwrap_or(0);
+            let t = hist::generate(check, rng::mix3(1, rng::tag_of(check.id()), idx));
+            println!("{}", serde_json::to_string(&t).unwrap());
+        }
         "min" => {
             let check = hist::parse_check(&args[2]).expect("property");
             let seed: u64 = arg_val(&args, "--seed").map(|s| s.parse().unwrap()).unwrap_or(1);
